@@ -149,6 +149,10 @@ def make_harness(K: int, first_ops: list[str], digest_sizes: list[int], max_hand
             return registered_twin(key), base_taken(pid, None)
 
         def check_invariants(step: str) -> None:
+            for key, obj in list(NODE_REGISTRY.items()):
+                if obj.id != key:
+                    scenario.update(after=step, registry_key=key, node_id=obj.id)
+                    e.fail("registry-key-differs-from-node-id", scenario=scenario)
             live = _closure(handles)
             ids: dict[str, Any] = {}
             for oid, n in live.items():
